@@ -75,23 +75,19 @@ func (am *YAMLAccountManager) Create(account hotline.Account) error {
 	am.mu.Lock()
 	defer am.mu.Unlock()
 
-	// Create account file, returning an error if one already exists.
-	file, err := os.OpenFile(
-		filepath.Join(am.accountDir, path.Join("/", account.Login+".yaml")),
-		os.O_CREATE|os.O_EXCL|os.O_WRONLY, 0644,
-	)
-	if err != nil {
-		return fmt.Errorf("create account file: %w", err)
+	accountPath := filepath.Join(am.accountDir, path.Join("/", account.Login+".yaml"))
+
+	// Return an error if an account file already exists.  All writers hold am.mu, so check-then-write is one step.
+	if _, err := os.Stat(accountPath); err == nil {
+		return fmt.Errorf("create account file: %w", os.ErrExist)
 	}
-	defer file.Close()
 
 	b, err := yaml.Marshal(account)
 	if err != nil {
 		return fmt.Errorf("marshal account to YAML: %v", err)
 	}
 
-	_, err = file.Write(b)
-	if err != nil {
+	if err := writeFileAtomic(accountPath, b); err != nil {
 		return fmt.Errorf("write account file: %w", err)
 	}
 
@@ -104,34 +100,47 @@ func (am *YAMLAccountManager) Update(account hotline.Account, newLogin string) e
 	am.mu.Lock()
 	defer am.mu.Unlock()
 
-	// If the login has changed, rename the account file.
-	if account.Login != newLogin {
-		err := os.Rename(
-			filepath.Join(am.accountDir, path.Join("/", account.Login)+".yaml"),
-			filepath.Join(am.accountDir, path.Join("/", newLogin)+".yaml"),
-		)
-		if err != nil {
-			return fmt.Errorf("error renaming account file: %w", err)
-		}
+	oldLogin := account.Login
+	oldPath := filepath.Join(am.accountDir, path.Join("/", oldLogin)+".yaml")
+	newPath := filepath.Join(am.accountDir, path.Join("/", newLogin)+".yaml")
 
-		account.Login = newLogin
-		am.accounts[newLogin] = account
-
-		delete(am.accounts, account.Login)
-	}
+	account.Login = newLogin
 
 	out, err := yaml.Marshal(&account)
 	if err != nil {
 		return err
 	}
 
-	if err := os.WriteFile(filepath.Join(am.accountDir, newLogin+".yaml"), out, 0644); err != nil {
+	// Replace the content of the existing file atomically, then move the file if the login has changed.  Accounts are
+	// keyed by the Login stored in the file, so a crash at any point leaves either the complete old or the complete
+	// new account behind, never a truncated file.
+	if err := writeFileAtomic(oldPath, out); err != nil {
 		return fmt.Errorf("error writing account file: %w", err)
 	}
 
-	am.accounts[account.Login] = account
+	if oldLogin != newLogin {
+		if err := os.Rename(oldPath, newPath); err != nil {
+			return fmt.Errorf("error renaming account file: %w", err)
+		}
+
+		delete(am.accounts, oldLogin)
+	}
+
+	am.accounts[newLogin] = account
 
 	return nil
+}
+
+// writeFileAtomic writes data to a temporary file next to name and renames it over name, so that name always holds
+// either its complete previous content or the complete new content.
+func writeFileAtomic(name string, data []byte) error {
+	tempName := name + ".tmp"
+
+	if err := os.WriteFile(tempName, data, 0644); err != nil {
+		return err
+	}
+
+	return os.Rename(tempName, name)
 }
 
 func (am *YAMLAccountManager) Get(login string) *hotline.Account {
